@@ -521,10 +521,10 @@ Proof.
       try (cbn [resolve_packs]; same_head IH Hi Ha).
     + destruct it' as [n0|n0 e0|cls name fields compressed|n0 a0 p0|n0|bs|n0 vs|fmt imm|name imm|path size0 actual|d0|n0|b0 n0];
         cbn [resolve_packs]; try (same_head IH Hi Ha).
-      destruct imm; try (cbn [orel]; reflexivity).
+      destruct imm; try (cbn [orel]; reflexivity). change conv_pack with true.
       destruct (struct_pack fmt z) as [[bs|e]|]; cbn [orel]; auto. same_head IH Hi Ha.
     + inversion Hv; subst.
-      * destruct v'; cbn [resolve_packs]; try (cbn [orel]; reflexivity).
+      * destruct v'; cbn [resolve_packs]; try (cbn [orel]; reflexivity). change conv_pack with true.
         destruct (struct_pack fm z) as [[bs|e]|]; cbn [orel]; auto. same_head IH Hi Ha.
       * cbn [resolve_packs orel]. reflexivity.
 Qed.
